@@ -1,6 +1,7 @@
 """C17 rendered balance tables are rectangular and numerically faithful (table.TextRenderer / CSVRenderer, knut balance)"""
 PID = "C17"
 THEOREM_FILE = "Properties/C17.v"
+EXTRA_THEOREM_FILES = ["Properties/C17w.v"]
 NEEDS_KNUT = True
 
 RULE = ("(1) C17.table: random tables shaped like balance reports built through the exported table API (2-3 column groups, "
@@ -13,6 +14,20 @@ RULE = ("(1) C17.table: random tables shaped like balance reports built through 
         "blank rows dropped).  (2) C17.bal: generated journals x flag sets through `knut balance -a --digits n [-k]` and "
         "`--csv`; model text and CSV byte-identical; spec on the binary's output: rect_b, and every text cell against the CSV "
         "field in the same position (numeric cells = the CSV's exact amount rounded, zero = blank, text verbatim).  "
+        "(3) the text table of `portfolio weights` (outside the property's wording, which speaks of the balance report; "
+        "reported as observations, never as violations of C17): C17.wtable: tables with percent cells (Row.AddPercent; "
+        "float64 given by bit pattern: shares n/d, ties and near-ties of the printed percentage at the rounding digit, "
+        "0, -0, NaN, +-Inf, 10^k and 10^k - ulp, subnormals, the largest float, random bit patterns; half of the tables with "
+        "all weights in [0,1] and digits 0..5) through TextRenderer{Round: digits}, digits -3..30: model text byte-identical; "
+        "spec on the Go output: wtable_fits_b (every cell fills its column) implies rect_b.  C17.weights: generated "
+        "portfolios (the generators of C20) and portfolios whose total is exactly zero at some period ends through "
+        "`knut portfolio weights -a --color=false --digits n` (n in 0..8, -1): the binary's text against "
+        "Model.WeightsTable.weights_text_cmd line by line and cell by cell (a percent cell may differ by one unit of the "
+        "last place: float64 sums vs the nearest float of the exact weight; counted), the two command models agree; spec on "
+        "the binary's text: fits implies rect_b, every printed percentage passes pct_cell_ok_b against the exact rational "
+        "weight (half a unit of the last place + 1e-9 relative), +Inf% / -Inf% / the empty unpadded cell where the total is "
+        "zero.  Tables of the binary that are not rectangular are counted by cause (NaN cell, numeral wider than the "
+        "column, negative --digits) in the evidence.  "
         "Non-trivial: a table with at least one non-zero numeric cell / a report that was produced; distinct by input.")
 TRUSTED_BASE = [
     "Coq 8.16.1 kernel",
@@ -23,6 +38,11 @@ TRUSTED_BASE = [
     "StringFixed, String, DivRound), tied to the code by byte-identical output on every run",
     "fmt's %*s padding and utf8.RuneCountInString are modelled as counting non-continuation bytes (exact on valid UTF-8)",
     "encoding/csv quoting is not modelled: generated fields never contain comma, quote, CR/LF or leading space",
+    "weights part: drv_c17w.ml (decoding of the case line and of float64 bit patterns, splitting text lines at '|'), harness "
+    "c17w.go, the generators of c20.go; Model/F64.v is a hand-written model of float64 multiplication by 100 and of "
+    "strconv.FormatFloat(x, 'f', p, 64) / fmt's %*.*f (incl. the BADPREC fallback), tied byte for byte on every run; "
+    "Model/WeightsTable.v computes the command's weights with exact rationals extended by +-Inf/NaN and prints the "
+    "nearest float64 (the binary sums float64 values: compared within one unit of the last printed place)",
 ]
 ASSUMPTIONS = ["every row is as wide as the table (AddRow..FillEmpty, AddSeparatorRow, AddEmptyRow, the balance report: "
                "C17_render_report_rows_full); a shorter row would be rendered ragged by the Go code",
@@ -31,7 +51,10 @@ ASSUMPTIONS = ["every row is as wide as the table (AddRow..FillEmpty, AddSeparat
                "(East Asian wide characters occupy two)",
                "--thousands: d.Div(1000) rounds at 16 decimals, exact for amounts with at most 13 decimals (C17_div1000_exact); "
                "the property's range is 8",
-               "the binary is always run with -a (without it sibling order depends on Go map order: C06)"]
+               "the binary is always run with -a (without it sibling order depends on Go map order: C06)",
+               "weights part: C17_weights_rect assumes dates of the years 0..9999 (ten runes), labels without line break, one "
+               "cell per date (as weights.Renderer builds them) and that every weight is printed in at most ten runes; "
+               "C17_weights_rect_unit derives the last from weights in [0,1] and --digits 0..5"]
 TECHNIQUE = ("Coq proofs over executable Gallina models of the table renderers and of shopspring/decimal's Round/string "
              "(rounding as integer arithmetic at a common scale, decimal-digit lemmas, layout induction over rows and cells) "
              "+ byte-exact model/implementation correspondence and evaluation of the executable specification on the "
@@ -41,33 +64,84 @@ LEVEL_TEXT = ("C17_rect/C17_lines/C17_layout/C17_cell_width/C17_col_widths_ge (e
               "tables), C17_round_spec/C17_round_unique/C17_round_eq_haz (Decimal.Round = half away from zero), C17_div1000_exact, "
               "C17_number/C17_number_meets_spec (strip commas = StringFixed of the rounded amount, p fractional digits, sign iff "
               "rounded value negative), C17_zero_blank, C17_grouping, C17_csv_rows/C17_to_string_roundtrip/C17_csv_exact; all closed "
-              "under the global context.")
+              "under the global context.  Weights report (Properties/C17w.v): C17_weights_cell_width / _cell_misfit (a percent cell "
+              "is rendered to its column's width iff --digits >= 0 and numeral+% fit, a NaN iff the width is 0), "
+              "C17_weights_table_rect (every well-formed table all of whose cells fit is rectangular), C17_weights_col_widths_ge, "
+              "C17_weights_extends_table (= Model/Table.v's renderer on tables without percent cells), C17_weights_wf, "
+              "C17_weights_rect (the report is rectangular when every weight is printed in <= 10 runes), C17_weights_rect_unit "
+              "(weights in [0,1], --digits 0..5; through C17_weights_unit_len: the float64 product n*100 never exceeds 100), and "
+              "the refutations by vm_compute C17_weights_nan_refuted (zero-total column: empty unpadded cell, the model's bytes "
+              "= the binary's), C17_weights_digits6_refuted (weight 1, --digits 6), C17_weights_negative_digits_refuted "
+              "(%!(BADPREC)); all closed under the global context.")
 LEVEL_NOTE = ("Trusted: kernel, extraction, the OCaml driver's cell cutting and CSV splitting, the Go harness; that Model/Table.v "
               "and Model/Dec.v are the Go code (sampled: quick 3000 tables + 300 binary report pairs, thorough 300000 tables). "
-              "big.Int's decimal String is modelled by `digits` (proved correct against parse_digits).")
+              "big.Int's decimal String is modelled by `digits` (proved correct against parse_digits).  The weights table is not "
+              "covered by the property's wording; its three ways of not being rectangular are proved of the model, observed on the "
+              "binary on every run and written up in findings/C17-weights-nan-cell.md.  Float64 arithmetic of the report values is "
+              "not modelled (exact rationals + nearest float; sampled within one unit of the last place).")
 
 
 def plan(tier, seed):
     if tier == "quick":
-        return [("C17", seed, 3000, []), ("C17bal", seed, 300, [])]
-    return [("C17", seed + k, 50000, []) for k in range(6)] + [("C17bal", seed + k, 1500, []) for k in range(4)]
+        return [("C17", seed, 3000, []), ("C17bal", seed, 300, []), ("C17w", seed, 2000, [])]
+    return [("C17", seed + k, 50000, []) for k in range(6)] + [("C17bal", seed + k, 1500, []) for k in range(4)] + \
+        [("C17w", seed + k, 20000, []) for k in range(4)]
 
 
 def search_plan(seed):
-    return [("C17", seed + 100 + k, 20000, []) for k in range(3)] + [("C17bal", seed + 100, 1000, [])]
+    return [("C17", seed + 100 + k, 20000, []) for k in range(3)] + [("C17bal", seed + 100, 1000, [])] + \
+        [("C17w", seed + 100, 10000, [])]
+
+
+NOTE = " #NOTE# "
+
+
+def compare(c):
+    """C17.wtable / C17.weights: the model output carries an observation after NOTE (why the binary's table is not
+    rectangular; how many percent cells were accepted one unit of the last place apart)"""
+    if c.op in ("C17.wtable", "C17.weights"):
+        return (c.model or "").split(NOTE)[0] == c.observed
+    return c.model == c.observed
 
 
 def nontrivial(c):
     if c.op == "C17.table":
         return " N" in c.input and not c.observed.startswith(("PANIC", "BADINPUT", "RENDERERR"))
+    if c.op == "C17.wtable":
+        return " P" in c.input and not c.observed.startswith(("PANIC", "BADINPUT", "RENDERERR"))
+    if c.op == "C17.weights":
+        return c.observed.startswith("OK ") and "%" in c.observed
     return c.observed.startswith("OK ") and c.observed.count("\\n") > 6
 
 
 def distribution(cases):
     d = {"tables": 0, "digits": {}, "thousands": 0, "numeric_cells": 0, "zero_cells": 0, "fill_rows": 0,
          "first_row_not_separator": 0, "multibyte_tables": 0, "panic": 0,
-         "bal": 0, "bal_ok": 0, "bal_err": 0, "bal_thousands": 0, "bal_valued": 0}
+         "bal": 0, "bal_ok": 0, "bal_err": 0, "bal_thousands": 0, "bal_valued": 0,
+         "wtables": 0, "wtable_percent_cells": 0, "weights_runs": 0, "weights_zero_total_journals": 0,
+         "weights_observations": {}, "weights_cells_one_unit_apart": 0}
     for c in cases:
+        if c.op in ("C17.wtable", "C17.weights"):
+            if c.op == "C17.wtable":
+                d["wtables"] += 1
+                d["wtable_percent_cells"] += c.input.count(" P")
+            else:
+                d["weights_runs"] += 1
+                d["weights_zero_total_journals"] += c.id.endswith("-z")
+            kv = dict(x.split("=", 1) for x in c.input.split(" | ")[0].split() if "=" in x)
+            key = ("wtable:" if c.op == "C17.wtable" else "weights:") + kv.get("digits", "?")
+            d["digits"][key] = d["digits"].get(key, 0) + 1
+            note = (c.model or "").split(NOTE)
+            what = "rectangular"
+            if len(note) > 1:
+                for t in note[1].split():
+                    if t.startswith("float="):
+                        d["weights_cells_one_unit_apart"] += int(t[6:])
+                    else:
+                        what = t
+            k2 = c.op + " " + what
+            d["weights_observations"][k2] = d["weights_observations"].get(k2, 0) + 1
+            continue
         if c.op == "C17.table":
             d["tables"] += 1
             hdr, _, body = c.input.partition(" | ")
